@@ -12,7 +12,8 @@ RULE = ("for every (n, connectivity, LC class): k members constructed with indep
         "compress_preparation_circuit; additionally every graph on n <= 5 vertices (and drawn six-vertex graphs) presented literally in "
         "graph form (Graph object or canonical generator strings), whatever its edge count; and, per configuration, input circuits that "
         "leave part of the register untouched (all Bell pairs, GHZ stars/chains, pairs of Bell pairs, 4-qubit lines on a subset, drawn "
-        "sub-circuits on k < n qubits; entangling gates between arbitrary qubits). A case is one returned circuit. Non-trivial = class cost >= 1 and the member differs "
+        "sub-circuits on k < n qubits; entangling gates between arbitrary qubits); and the graph state of every table entry with a two- or "
+        "three-gate Clifford (sh, hs, hsh) on EVERY qubit (1 / 6 frames per entry). A case is one returned circuit. Non-trivial = class cost >= 1 and the member differs "
         "from the table's representative by a local layer or basis change; distinct by (n, connectivity, canonical group, API). "
         "Oracle: own two-qubit counter (swap = 3) and ASAP two-qubit depth on the returned instruction list, compared with "
         "stabilizer_circuit_lookup(n, connectivity, id).cost/.depth where id is the table line whose graph lies in the "
@@ -173,7 +174,42 @@ def shard_idle(arg):
     return rep
 
 
+HEAVY_WORDS = [("s", "h"), ("h", "s"), ("h", "s", "h")]
+
+
+def shard_heavy(arg):
+    """the graph state each table entry stores, in a frame where EVERY qubit carries a two- or three-gate Clifford (sh, hs, hsh) -- the
+    frames in which the local correction is longest; probability (1/2)^n under independent per-qubit sampling"""
+    n, name, cids, k, seed = arg
+    rep = fw.Report()
+    ent = tableinfo.parsed(n, name)
+    for cid in cids:
+        if cid >= len(ent) or ent[cid] is None:
+            continue
+        gid = ent[cid][0]
+        for j in range(k):
+            rng = fw.rng_for("c04heavy", seed, n, name, cid, j)
+            layer = [(g, (q,)) for q in range(n) for g in rng.choice(HEAVY_WORDS)]
+            gens = [pauli.propagate(g, layer) for g in lc.graph_state_gens(n, gid)]
+            if j % 2:
+                gens = members.random_basis_change(gens, rng)
+            gens = members.apply_signs(gens, rng.randrange(1 << n))
+            circ = [["h", [q]] for q in range(n)] + [["cz", list(e)] for e in lc.edges_from_gid(n, gid)] + [[g, list(q)] for g, q in layer]
+            case = {"n": n, "connectivity": name, "strings": sweep.strings(gens, n), "format": "strings+sign", "circuit": circ if j == 0 else None}
+            fails, results = check_member(case)
+            canon = pauli.canonical_group(gens, n)
+            for res in results:
+                api, c, d = res[:3]
+                rep.case((n, name, canon, api, "heavy") if c >= 1 else None, None)
+                rep.count("circuits_per_api", api + "(table graph, every qubit in a heavy frame)")
+            for key, msg, extra in fails:
+                rep.fail(key, case, msg + " [table graph with sh / hs / hsh on every qubit]", **extra)
+    return rep
+
+
 def shard_any(arg):
+    if arg[0] == "heavy":
+        return shard_heavy(arg[1:])
     if arg[0] == "idle":
         return shard_idle(arg[1:])
     if arg[0] == "named":
@@ -205,7 +241,11 @@ def run(ctx):
     for (n, name) in coupling.CONFIGS:
         if n >= 3:
             args.append(("idle", n, name, ctx.seed, q))
-    args.sort(key=lambda a: -(a[1] if a[0] in ("graphs", "named", "idle") else a[0]))
+    kc = {2: 2, 3: 5, 4: 18, 5: 93, 6: 760}
+    for (n, name) in coupling.CONFIGS:
+        for chunk in fw.split(list(range(kc[n])), 1 if n < 6 else 4):
+            args.append(("heavy", n, name, chunk, 1 if q else 6, ctx.seed))
+    args.sort(key=lambda a: -(a[1] if a[0] in ("graphs", "named", "idle", "heavy") else a[0]))
     rep = fw.run_shards(ctx, "props.c04", "shard_any", args)
     rep.extra["exhaustive"] = False
     rep.extra["exhaustive_part"] = "every (configuration, class) pair is visited with at least one member in every run; members are sampled"
